@@ -32,6 +32,10 @@ def cubes(tier, has_fc):
                         # quick: the identity of the reported error is decided on the cubes without fast-check preference only
                         out.append({'N': N, 'D': D, 'I': I, 'kind': kind, 'fd': fd, 'cj': cj, 'pfc': pfc, 'valid': False, 'identity': (tier != 'quick') or not pfc})
         out.append({'N': N, 'D': D, 'I': I, 'kind': 1, 'fd': False, 'cj': 0, 'pfc': False, 'valid': True})
+    if tier == 'quick':
+        # one specifier more, for shapes that need four (a module importing through a two-hop redirect chain): dynamic imports followed
+        for kind in range(3):
+            out.append({'N': 4, 'D': 1, 'I': 0, 'kind': kind, 'fd': True, 'cj': 0, 'pfc': False, 'valid': False, 'identity': False})
     return out
 
 def cube_name(c):
